@@ -46,8 +46,6 @@ def one(sid):
                 verdict = "OTHER(exit %d)" % r.returncode; bad += 1
             lines.append("%s %s %s %s" % (sid, c, verdict, ";".join(sigs[:3])))
         shutil.rmtree("/tmp/reseed/out-" + sid, ignore_errors=True)
-        for f in glob.glob(os.path.join(ROOT, ".build", "c[0-9][0-9].????????")):
-            pass  # (per-worktree binaries are removed by the caller: tools/cleanbuild.sh)
     sh("git -C /repo worktree remove --force %s" % wt)
     return lines, bad
 
